@@ -16,7 +16,7 @@ CHECKS = {
           "DESIGN.md 4/C02"),
   "C03": ("model_checking",
           "deviation-bounded schedule exploration + exhaustive cancel-point/queue-state/residue grids on real chmux code; quiescence + ledger-derived credit-conservation probe oracle",
-          "(a) scripts with sends/try_sends/connects cancelled at every poll index while the path to the wire is blocked, receiver-side cancelled recv with a full return queue: at quiescence nothing may be pending and send(P) for the ledger-derived pool P must complete with the reverse direction held; (b) connect(k ports) for receive buffers 4..=17 x residues 0..7 x chunk sizes: no step-horizon ending, no empty PortData, <= k frames; (c) a stalled port never blocks other/new ports, whichever way its sender got stuck (whole messages, a chunked body using exactly the granted credit then finish(), an over-long chunk, port requests over the stalled port).",
+          "(a) scripts with sends/try_sends/connects cancelled at every poll index while the path to the wire is blocked, receiver-side cancelled recv with a full return queue: at quiescence nothing may be pending and send(P) for the ledger-derived pool P must complete with the reverse direction held; (b) connect(k ports) for receive buffers 4..=17 x residues 0..7 x chunk sizes: no step-horizon ending, no empty PortData, <= k frames; also for scripts of empty messages and of chunked messages ending in finish(), and with everything consumed fewer credits than the receiver's return threshold may be outstanding; (c) a stalled port never blocks other/new ports, whichever way its sender got stuck (whole messages, a chunked body using exactly the granted credit then finish(), an over-long chunk, port requests over the stalled port).",
           "Liveness judged at quiescence of a healthy transport under the paused clock; step horizon 3000/20000 classifies livelock. Same scheduler assumptions as C01.",
           "DESIGN.md 4/C03"),
   "C07": ("model_checking",
@@ -46,7 +46,7 @@ CHECKS = {
           "DESIGN.md 4/C10"),
   "C11": ("model_checking",
           "deviation-bounded schedule exploration (d<=2/3) of close / receiver drop / sender drop / cancelled close at every position of a 4-message stream with a chunked message on real chmux ports; bounded exhaustive enumeration of the same events (plus connection cut) on every typed channel kind and placement, with schedule exploration of the racing cases",
-          "Ports: after close every send that returned Ok is received, later sends fail Closed{gracefully:true}, closed() resolves; after receiver drop later sends fail Closed{gracefully:false} and received is a prefix; after sender drop the receiver gets everything then end-of-stream; nothing hangs. Typed channels (base; mpsc with the sender remote, the receiver remote, a local plus a remote sender, two remote senders; lr with either half remote; oneshot with either half remote; bin with either half remote): event = receiver close / receiver drop / drop of all senders / connection cut after 0..4 values per sender (one value spans several chunks), both settled (everything before it delivered, later sends start after it is observable) and racing with the sends; oracle: per sender the received values are a prefix of the accepted ones, intact; a Sending handle that resolved Ok (or a send that returned Ok on channels without handles) is delivered after a close and after sender drop, undelivered accepted values form a suffix whose handles report dropped / a send error and never hang; after sender drop the receiver gets everything and then end-of-stream (oneshot: Closed when nothing was sent); the condition becomes observable at the sender (closed() resolves) and every classification the API offers (ClosedReason of sender and of the send error, Closed{gracefully}, error kind) is closed / dropped / failed as the event demands; after a cut the receiver never reports a clean end with values missing.",
+          "Ports: after close every send that returned Ok is received, later sends and try_sends fail Closed{gracefully:true}, closed() resolves; after receiver drop later sends fail Closed{gracefully:false} and received is a prefix; after sender drop the receiver gets everything then end-of-stream; nothing hangs. Typed channels (base; mpsc with the sender remote, the receiver remote, a local plus a remote sender, two remote senders; lr with either half remote; oneshot with either half remote; bin with either half remote): event = receiver close / receiver drop / drop of all senders / connection cut after 0..4 values per sender (one value spans several chunks), both settled (everything before it delivered, later sends start after it is observable) and racing with the sends; oracle: per sender the received values are a prefix of the accepted ones, intact; a Sending handle that resolved Ok (or a send that returned Ok on channels without handles) is delivered after a close and after sender drop, undelivered accepted values form a suffix whose handles report dropped / a send error and never hang; after sender drop the receiver gets everything and then end-of-stream (oneshot: Closed when nothing was sent); the condition becomes observable at the sender (closed() resolves) and every classification the API offers (ClosedReason of sender and of the send error, Closed{gracefully}, error kind) is closed / dropped / failed as the event demands; after a cut the receiver never reports a clean end with values missing.",
           "Channels are used over one connection; forwarded (multi-hop) halves are C05/C20's subject. Known finding F14 (send error of a local mpsc sender after its receiver was dropped). select! fairness fixed per seed.",
           "DESIGN.md 4/C11"),
   "C04": ("model_checking",
@@ -66,7 +66,7 @@ CHECKS = {
           "DESIGN.md 4/C15"),
   "C16": ("model_checking",
           "grid enumeration (burst x send/receive buffer x consumption pattern x local/remote x join point x pacing) + deviation-bounded schedule exploration of real broadcast channels; per-subscriber log oracle",
-          "Per subscriber: values strictly increasing, none from before the subscription, exactly one lag marker at every gap (including a gap at the very end, before Closed, also when every sender was dropped before the stalled subscriber drained) and none without a gap, Closed at the end (never a hang, also with send_buffer 1); a subscriber that keeps up with a paced sender receives every value even next to a subscriber that never consumes; send is synchronous and never fails while subscribers exist.",
+          "Per subscriber: values strictly increasing, none from before the subscription, exactly one lag marker at every gap (including a gap at the very end, before Closed, also when every sender was dropped before the stalled subscriber drained) and none without a gap, Closed at the end (never a hang, also with send_buffer 1); a subscriber that keeps up with a paced sender receives every value even next to a subscriber that never consumes; send is synchronous and never fails while subscribers exist. The same patterns with the values fed through Sender::feeder(), also with slow subscribers only: a subscriber that merely lags must not disconnect the feeder.",
           "'Keeps up' defined operationally (quiescence between sends).",
           "DESIGN.md 4/C16"),
   "C18": ("model_checking",
@@ -81,7 +81,7 @@ CHECKS = {
           "DESIGN.md 4/C12"),
   "C19": ("model_checking",
           "enumeration of abandonment stages x method kinds x server flavours and failing items x positions, each under deviation-bounded schedule exploration; execution-log oracle",
-          "A's call future dropped before queueing / queued behind another call / at the first or second suspension point / with the reply in flight, or A's connection cut, or the caller dropped / cut while a reply about twice its flow-control window is being transferred, for a cancellable and a #[no_cancel] method on by-value, ref-mut and shared-mut (spawn on/off) servers; unknown method (newer client trait), over-long request, over-long reply at position 0..2 among three calls. Oracle: cancellable executions stop at the next suspension point once the server has settled, #[no_cancel] ones finish, another client's &mut and &self calls complete afterwards (lock released), serve() is still running, an item failure fails only that call.",
+          "A's call future dropped before queueing / queued behind another call / at the first or second suspension point / with the reply in flight, or A's connection cut, or the caller dropped / cut while a reply about twice its flow-control window is being transferred, for a cancellable and a #[no_cancel] method on by-value, ref-mut and shared-mut (spawn on/off) servers; unknown method (newer client trait), over-long request, over-long reply at position 0..2 among three calls; remote clients on two connections that fail one after the other while a local client keeps calling. Oracle: cancellable executions stop at the next suspension point once the server has settled, #[no_cancel] ones finish, another client's &mut and &self calls complete afterwards (lock released), serve() is still running, an item failure fails only that call.",
           "Cancellation is required only after two quiescence periods with the caller gone. Known finding F6 (over-long reply ends serve(), pinned by the suite) is listed in known_findings.json. Mismatched argument types are decoded leniently by the default codec and are not a failing item.",
           "DESIGN.md 4/C19"),
   "C17": ("model_checking",
